@@ -37,6 +37,18 @@ TABLE = {
         note="Trusted: astdump.dump as structural equality; programs the parser rejects carry no claim.",
         ref="DESIGN.md section 4, C07",
     ),
+    "C09": dict(
+        technique="reference-tokenizer oracle: Hypothesis-generated token sequences under random layouts and directive lines, exhaustive token pairs, exhaustive short strings for the progress/no-silent-skip part",
+        text="Generated token sequences with known classes, spellings, lines and columns are laid out with every kind of white space, adjacency where the independent longest-match tokenizer allows it, #pragma lines and 8 linemarker forms; CLexer must return exactly the expected stream. All ordered pairs of the 157-token vocabulary and all strings of length <= 4 (quick) / 5 (thorough) over 20 characters are enumerated completely; longer inputs are sampled.",
+        note="Trusted: vlib/reflex.py (C99 6.4 pp-token grammar and classifiers). After an error callback only progress and accounting of characters are required, not exact positions.",
+        ref="DESIGN.md section 4, C09",
+    ),
+    "C10": dict(
+        technique="exhaustive enumeration of short strings over three literal alphabets against strict and lenient reference grammars (sandwich oracle) + Hypothesis grammar-based literals and corruptions; Constant type/value through the parser",
+        text="Every string up to length 5 (quick) / 6 (thorough) over integer, floating and character/string alphabets is lexed and compared with an independent strict C99 literal grammar (must be accepted) and a lenient one (what is accepted must be a literal of that class); malformed families must invoke the error callback; accepted literals are parsed and Constant.value/type compared with what the spelling implies. Complete inside the bound; long literals sampled.",
+        note="Trusted: strict/lenient literal grammars in vlib/reflex.py and the malformed-family predicates in vlib/props/c10.py.",
+        ref="DESIGN.md section 4, C10",
+    ),
 }
 
 NOT_YET = "check not built yet in this session (work in progress; see DESIGN.md section 9 for the order of work)"
